@@ -32,6 +32,9 @@ CLAIMED = {
  "C19": ("instrumented-RNG monitors: scripted adversarial / exact-cycle / failing streams and ChaCha streams; range, error, lock-step (fixed vs boxed value and consumption), exact-cycle uniformity and Bernstein-bounded statistical uniformity (1e-12 total false-alarm budget)",
          "Exploration: random_mod / try_random_mod on Limb, Uint (1,2,3,4,8 limbs) and BoxedUint for moduli with top limb 1, 2^j, 2^j+-1, MAX and low limbs 0/MAX: value < m, fixed == boxed with identical RNG call logs; exact-cycle streams (every masked top-word value once) must yield every value of [0,m) exactly once for all moduli <= 512 and boundary moduli < 2^16; statistical per-bucket bounds for small moduli and 64 coarse buckets for multi-limb moduli; random_bits for every bit_length 0..=BITS+2 under ChaCha, all-ones and all-zero streams (value < 2^k, == 2^k-1 under all ones, documented platform-independent byte consumption, errors exactly for bit_length > BITS / precision mismatch) and per-bit frequencies; Random for Limb/Uint/Int/NonZero/Odd/ConstMontyForm under zero-prefix and failing streams.",
          "DESIGN.md §5 C19", "Trusted base: ChaCha8 from rand_chacha as the uniform stream; the Bernstein inequality for the statistical bound (per-test delta 1e-18, < 1e6 tests per run); the exact-cycle experiment assumes the sampler reads one word per single-limb candidate, which the call log verifies. Statistical power is about 2% per bucket at 10^6 draws; smaller biases on ChaCha streams are invisible, the exact-cycle test covers the acceptance rule itself."),
+ "C15": ("differential runtime monitor: named form pairs (two routes to the same operation) executed on identical generated inputs, outputs and boxed precisions required bit-identical; per-pair evaluation counts in the evidence",
+         "Exploration: about 600 named form pairs in six families - fixed Uint<N> vs BoxedUint of 64*N bits for N in 1,2,3,4,8,16,32,64 (arithmetic, bits, shifts, division, by-limb division, sqrt, inv_mod2k, formatting, modular add/sub/neg/mul, special-modulus forms, Montgomery forms, inversion, gcd), constant-time vs _vartime, trait vs inherent, precomputed vs one-shot (reciprocals, inverters), operator forests by value / by reference / assigning and the Wrapping / Checked wrappers against the inherent methods (fixed, and boxed with narrower right-hand sides of BoxedUint / Uint<N> / u8..u128 type, panicking exactly when the checked form is none), and const-evaluated vs run-time (14 literal operand tuples x 23 const fns frozen at harness compile time vs black_box'ed run-time calls); boxed results must have the documented precision.",
+         "DESIGN.md §5 C15", "Trusted base: the harness conversions only - no external oracle is involved, each pair compares two routes of the crate against each other, so a defect shared by both routes is invisible here (that is C02-C10's job). Const-vs-run-time compares rustc's const evaluator with the optimized build on a fixed literal bank, not on generated inputs."),
  "C12": ("invariant monitor at every producer of NonZero<T>/Odd<T> (raw-limb predicate + stated-byte-order oracle + consumer check)",
          "Exploration: every public producer of NonZero / Odd for Limb, Uint, Int, BoxedUint (new, new_unwrap, to_nz/to_odd, from_u*/From<core::num::NonZero*>, from_be/le_bytes, from_be/le_byte_array, from_be/le_hex, Default/ONE/MAX, conditional_select, abs_sign, widen, as_nz_ref, Odd<Uint> -> Odd<BoxedUint>, serde binary + hex, zeroize, random under zero-prefix streams, MontyParams::modulus) is driven with values that must be rejected and accepted, incl. asymmetric byte strings whose BE/LE readings differ in validity; each produced value is checked on its raw limbs, against the oracle decoding for the STATED byte order, and through a consumer (div_rem / MontyParams).",
          "DESIGN.md §5 C12", FUNC_NOTE),
